@@ -142,9 +142,10 @@ def run(R, tier, seed, driver_ok):
                     checks += [('score', (tidx, yq), (pool[tidx], yq)) if name in zoo.PAIRS else ('score', (tidx,), (pool[tidx],))]
                 for m, a_idx, a_formed in checks:
                     dtq = INT_DTYPES[int(rng.randint(len(INT_DTYPES)))]
-                    a_idx = (np.asarray(a_idx[0]).astype(dtq),) + tuple(a_idx[1:])
-                    if np.asarray(a_idx[0]).max() != np.asarray(a_idx[0].astype(int)).max():
-                        continue
+                    orig_idx = np.asarray(a_idx[0])
+                    a_idx = (orig_idx.astype(dtq),) + tuple(a_idx[1:])
+                    if not np.array_equal(a_idx[0].astype(np.int64), orig_idx.astype(np.int64)):
+                        continue                      # (the dtype cannot hold these indicators: too large, or negative for an unsigned one)
                     R.case(('c05', name, kind, m, str(dtq), X.tobytes().hex()[:32]), True, branch=f'{m}:{kind}')
                     calls0 = pre.calls if kind == 'callable' else 0
                     try:
